@@ -165,3 +165,163 @@ func init() {
 			"measure": measure, "n": n, "d": d, "table": rng.Intn(2) == 0, "threads": []int{1, 2, 4, 0}[rng.Intn(4)], "mono": false}
 	}
 }
+
+// ---- SAM blocks (C01, C02, C15) -------------------------------------------------------------
+
+type cigOp struct {
+	op string
+	n  int
+}
+
+// genCigar builds a CIGAR consuming exactly span reference bases, with clips, and the SEQ for it.
+func genCigar(rng *rand.Rand, ref string, pos, span int) ([]interface{}, string) {
+	var ops []cigOp
+	var seq []byte
+	randBases := func(n int) {
+		for i := 0; i < n; i++ {
+			if rng.Intn(12) == 0 {
+				seq = append(seq, "RYKMSWN"[rng.Intn(7)])
+			} else {
+				seq = append(seq, "ACGT"[rng.Intn(4)])
+			}
+		}
+	}
+	hard := rng.Intn(5) == 0
+	if hard {
+		ops = append(ops, cigOp{"H", 1 + rng.Intn(3)})
+	}
+	if rng.Intn(3) == 0 {
+		n := 1 + rng.Intn(4)
+		ops = append(ops, cigOp{"S", n})
+		randBases(n)
+	}
+	rem := span
+	p := pos
+	aligned := false
+	for rem > 0 {
+		r := rng.Intn(20)
+		switch {
+		case r < 11 || !aligned:
+			n := 1 + rng.Intn(minInt(10, rem))
+			op := []string{"M", "M", "M", "=", "X"}[rng.Intn(5)]
+			ops = append(ops, cigOp{op, n})
+			for i := 0; i < n; i++ {
+				if rng.Intn(8) == 0 {
+					randBases(1)
+				} else {
+					seq = append(seq, ref[p+i])
+				}
+			}
+			p += n
+			rem -= n
+			aligned = true
+		case r < 14:
+			n := 1 + rng.Intn(minInt(3, rem))
+			ops = append(ops, cigOp{"D", n})
+			p += n
+			rem -= n
+		case r < 15:
+			n := 1 + rng.Intn(minInt(3, rem))
+			ops = append(ops, cigOp{"N", n})
+			p += n
+			rem -= n
+		case r < 19:
+			n := 1 + rng.Intn(3)
+			ops = append(ops, cigOp{"I", n})
+			randBases(n)
+		default:
+			ops = append(ops, cigOp{"P", 1 + rng.Intn(2)})
+		}
+	}
+	if rng.Intn(4) == 0 {
+		n := 1 + rng.Intn(3)
+		ops = append(ops, cigOp{"I", n})
+		randBases(n)
+	}
+	if rng.Intn(3) == 0 {
+		n := 1 + rng.Intn(4)
+		ops = append(ops, cigOp{"S", n})
+		randBases(n)
+	}
+	if hard || rng.Intn(6) == 0 {
+		ops = append(ops, cigOp{"H", 1 + rng.Intn(3)})
+	}
+	out := make([]interface{}, len(ops))
+	for i, o := range ops {
+		out[i] = []interface{}{o.op, o.n}
+	}
+	return out, string(seq)
+}
+
+func minInt(a, b int) int {
+	if a < b {
+		return a
+	}
+	return b
+}
+
+func init() {
+	randGens["sam"] = func(rng *rand.Rand, i int) map[string]interface{} {
+		L := 30 + rng.Intn(60)
+		ref := randSeq(rng, L, 0.0)
+		nq := 1 + rng.Intn(6)
+		var recs []interface{}
+		for q := 0; q < nq; q++ {
+			nr := 1 + rng.Intn(4)
+			if rng.Intn(3) == 0 {
+				nr = 1
+			}
+			// cut points for nr disjoint segments; sometimes let two segments overlap (C01 conflicts; outside C02's domain)
+			cuts := []int{0, L}
+			for len(cuts) < nr+1 {
+				cuts = append(cuts, 1+rng.Intn(L-1))
+			}
+			sortInts(cuts)
+			overlap := rng.Intn(5) == 0
+			for r := 0; r < nr; r++ {
+				lo, hi := cuts[r], cuts[r+1]
+				if hi-lo < 1 {
+					continue
+				}
+				a := lo + rng.Intn((hi-lo+1)/2)
+				b := a + 1 + rng.Intn(hi-a)
+				if overlap && r > 0 && a > 2 {
+					a -= 1 + rng.Intn(minInt(3, a-1))
+				}
+				cig, seq := genCigar(rng, ref, a, b-a)
+				flag := 0
+				if r > 0 {
+					flag = 2048
+				}
+				if rng.Intn(2) == 0 {
+					flag |= 16
+				}
+				recs = append(recs, map[string]interface{}{"q": q, "flag": flag, "pos": a, "cig": cig, "seq": symList(seq)})
+				if rng.Intn(6) == 0 { // an interleaved secondary / unmapped record of the same query
+					cig2, seq2 := genCigar(rng, ref, a, b-a)
+					recs = append(recs, map[string]interface{}{"q": q, "flag": []int{256, 4, 260}[rng.Intn(3)], "pos": a, "cig": cig2, "seq": symList(seq2)})
+				}
+			}
+		}
+		s := 1 + rng.Intn(L)
+		e := s + rng.Intn(L-s+1)
+		w := []int{1, 7, 60, L}[rng.Intn(4)]
+		run := func(cmd string, pad bool, s, e, w, t int, skip, omit bool) map[string]interface{} {
+			return map[string]interface{}{"cmd": cmd, "pad": pad, "s": s, "e": e, "wrap": w, "t": t, "skipins": skip, "omitref": omit}
+		}
+		runs := []interface{}{run("toma", false, -1, -1, -1, 1, false, false), run("toma", true, -1, -1, -1, 4, false, false),
+			run("toma", false, s, e, -1, 2, false, false), run("toma", true, s, e, -1, 1, false, false), run("toma", false, -1, -1, w, 3, false, false),
+			run("toma", false, -1, e, -1, 1, false, false), run("toma", true, s, -1, -1, 1, false, false),
+			run("topa", false, -1, -1, -1, 2, false, false), run("topa", false, s, e, -1, 1, false, false),
+			run("topa", false, -1, -1, -1, 1, true, false), run("topa", false, -1, e, w, 3, false, true), run("topa", false, s, -1, -1, 1, true, false)}
+		return map[string]interface{}{"id": "randsam-" + itoa(i), "ref": symList(ref), "recs": recs, "runs": runs}
+	}
+}
+
+func sortInts(a []int) {
+	for i := 1; i < len(a); i++ {
+		for j := i; j > 0 && a[j] < a[j-1]; j-- {
+			a[j], a[j-1] = a[j-1], a[j]
+		}
+	}
+}
